@@ -19,8 +19,8 @@ func init() {
 		Assumptions: []string{"a closed Done channel makes the select case ready", "close(ch) by the only sender-side owner"},
 		Run:         runC10,
 		Controls: []Control{
-			{Name: "value-pull-unconditional-send", File: "pkg/resource/value.go", Old: "\t\t\tlast = change.Value\n\t\t\tselect {\n\t\t\tcase <-ctx.Done():\n\t\t\t\treturn // give up sending\n\t\t\tcase typedEvents <- change:\n\t\t\t}", New: "\t\t\tlast = change.Value\n\t\t\ttypedEvents <- change", Expect: "R10.1"},
-			{Name: "collection-pull-no-defer-close", File: "pkg/resource/collection.go", Old: "\tgo func() {\n\t\tdefer close(send)\n\n\t\tif len(currentValues) > 0 {", New: "\tgo func() {\n\t\tif len(currentValues) > 0 {", Expect: "R10.2"},
+			{Name: "value-pull-unconditional-send", File: "pkg/resource/value.go", Old: "\t\t\t\tcontinue\n\t\t\t}\n\t\t\tlast = change.Value\n\t\t\tselect {\n\t\t\tcase <-ctx.Done():\n\t\t\t\treturn // give up sending\n\t\t\tcase typedEvents <- change:\n\t\t\t}", New: "\t\t\t\tcontinue\n\t\t\t}\n\t\t\tlast = change.Value\n\t\t\ttypedEvents <- change", Expect: "R10.1"},
+			{Name: "collection-pull-no-defer-close", File: "pkg/resource/collection.go", Old: "\tgo func() {\n\t\tdefer close(send)\n\n\t\t// held tracks", New: "\tgo func() {\n\t\t// held tracks", Expect: "R10.2"},
 			{Name: "stop-without-nil", File: "internal/minibus/bus.go", Old: "\t\tclose(l.ch)\n\t\tl.ch = nil", New: "\t\tclose(l.ch)", Expect: "R10.3"},
 			{Name: "send-outside-rlock", File: "internal/minibus/bus.go", Old: "\tl.m.RLock()\n\tdefer l.m.RUnlock()\n\n\tselect {", New: "\tselect {", Expect: "R10.3"},
 			{Name: "listener-no-listen-ctx", File: "internal/minibus/bus.go", Old: "\tcase <-l.ctx.Done():\n\t\t// listen context cancelled\n\t\t// this is considered a success even though the message is not sent\n\t\treturn true, false\n\n", New: "", Expect: "R10.4"},
